@@ -349,7 +349,9 @@ func (l *Line) Eval(crr uint32) *Result {
 	lo.Sub(lo, r.Drift)
 	hi := nf().Add(r.RefLoose, nf().Sub(r.Hi, r.Ref))
 	hi.Add(hi, r.Drift)
-	if !within(fi, lo, hi) {
+	// reported only where the tight comparison passed: there it means that the
+	// node's exponent constant itself is off; elsewhere it would repeat the tight verdict
+	if !within(fi, lo, hi) && crr != 100 && within(fi, r.Lo, r.Hi) {
 		r.Broken = append(r.Broken, RuleLoose)
 	}
 	if l.F == SaleReturn {
@@ -441,6 +443,17 @@ func AmountClass(a, X *big.Int) string {
 		return "amount>=7/8*scale"
 	}
 	return "amount-mid"
+}
+
+const narrowOperands = "operands<=2^100"
+
+// WidthClass tells whether every operand fits the 100-bit mantissa of the
+// implementation exactly (supply, reserve and amount all below 2^100) or not.
+func WidthClass(S, R, a *big.Int) string {
+	if S.BitLen() > 100 || R.BitLen() > 100 || a.BitLen() > 100 {
+		return "operands>2^100"
+	}
+	return narrowOperands
 }
 
 // CrrClass is the crr part of a signature.
